@@ -227,7 +227,26 @@ func genCfg(r *Rng) string {
 	return fmt.Sprintf("CFG(%s;%s;%s;%s)", key, renderBool(r.Bool()), renderBool(r.Chance(85)), hx([]byte(host)))
 }
 
+// pfmOfSize: a PackedForward message (1-byte tag, no options) whose event stream is sz bytes long: its encoding is
+// sz + 7 bytes, of which 6 come before the stream
+func pfmOfSize(r *Rng, sz int) string {
+	a := &absMsg{kind: "PFM", tag: []byte("t"), stream: r.Bytes(sz)}
+	return a.token(nil)
+}
+
+// encoded sizes around the stream writer's 2 KiB buffer, every size in a window (independent of the seed)
+var writerEdgeSizes = func() []int {
+	var s []int
+	for sz := 2030; sz <= 2062; sz++ {
+		s = append(s, sz)
+	}
+	return append(s, 4089, 4090, 4096, 6137, 6138, 6144)
+}()
+
 func genTcp(o *Out, r *Rng, n int, tier string) {
+	for _, sz := range writerEdgeSizes {
+		o.emit("C09", "SEQ", "CFG(-;f;t;"+hx([]byte("h"))+")", "CON(ok;f)", fmt.Sprintf("SND(%s;match;-)", pfmOfSize(r, sz)), fmt.Sprintf("RAW(%s;-)", hx(r.Bytes(3))))
+	}
 	for i := 0; i < n; i++ {
 		args := []string{genCfg(r)}
 		ln := 2 + r.Intn(9)
